@@ -46,6 +46,7 @@ RULE = (
     'and a value long enough to trigger trimming.'
 )
 RULE += (' ' + 'Also generated: for build, a callable that mutates its list/dict argument in place, given a Buildable-free container (directly or nested in a list).')
+RULE += (' ' + 'Round 6: the node shared by two sub-fixtures holds a Buildable / list / dict itself.')
 RULE += (' ' + "Rounds 3-5: both code generators with the root's arguments as sub-fixtures (a tagged node shared by two of them); render_diff(trim=True) with OrderedDict leaves; build_diff against a copy with overlapping tag sets.")
 ASSUMPTIONS = [
     'history is excluded from the compared state (as in the property statement)',
